@@ -579,7 +579,7 @@ def _rules_core(repo, tier):
     from ..stale import rule_stale
     from ..effects import rule_pure
     from ..fresh import rule_fresh
-    return [rule_horizon(repo, tier), rule_pure(repo, 'C14.PURE', 'LQR / MPC do not write in place into x_init, the nominal input trajectory or the cost tensors they are given',
+    return [__import__('sa.rules.c15', fromlist=['x']).rule_adv(repo, 'C14.ADV'), rule_horizon(repo, tier), rule_pure(repo, 'C14.PURE', 'LQR / MPC do not write in place into x_init, the nominal input trajectory or the cost tensors they are given',
                       [(LQR, 'LQR.forward'), (LQR, 'LQR.lqr_backward'), (LQR, 'LQR.lqr_forward'), ('pypose.module.mpc', 'MPC.forward'),
                        ('pypose.module.dynamics', 'runsys'), ('pypose.module.dynamics', 'toBTN')]),
             rule_fresh(repo, 'C14.FRESH', 'the roll-out buffers and the cost accumulator of a solve are allocated by that solve: nothing written in place '
